@@ -57,6 +57,7 @@ def build_candles(item):
         sym = SYMS[si]
         a = S.lattice_walk(item['n'], item['seed'] * 131 + si, start=w.get('start', 100), step=w.get('step', 2),
                            wick=w.get('wick', 2), flat_p=w.get('flat_p', 0.15), gap_p=w.get('gap_p', 0.1))
+        inject_empty_minutes(a, item.get('flats', []), item.get('zerovol', []), item['seed'] * 17 + si)
         if item.get('side') == 'B':
             t = item['cut']
             r = random.Random(item['tail_seed'] * 977 + si)
@@ -65,6 +66,11 @@ def build_candles(item):
                                   step=w.get('step', 2) + r.randint(0, 2), wick=w.get('wick', 2) + r.randint(0, 2),
                                   flat_p=w.get('flat_p', 0.15), gap_p=0.3)
             tail[:, 0] = a[t:, 0]
+            tflats = [k for k in range(2, len(tail) - 2) if r.random() < 0.03]
+            inject_empty_minutes(tail, tflats, [], item['tail_seed'] * 19 + si)
+            if tail[0][1] == a[t][1]:          # the first candle after the cut differs already in its open
+                tail[0][1] += 1.0
+                tail[0][3] = max(tail[0][3], tail[0][1])
             a = a.copy()
             a[t:] = tail
         out[sym] = a
@@ -73,6 +79,27 @@ def build_candles(item):
             warm[sym] = S.lattice_walk(W, item['seed'] * 131 + 50 + si, start=w.get('start', 100), step=w.get('step', 2),
                                        wick=w.get('wick', 2), ts0=S.T0 - W * S.MIN)
     return out, (warm or None)
+
+
+def inject_empty_minutes(c, flats, zerovol, seed):
+    """in place: minute i in `flats` becomes a flat ZERO-VOLUME candle repeating the previous close (what jesse's own gap
+    filler produces for a minute without trades) and the next minute opens with a gap; minutes in `zerovol` keep their
+    shape but get volume 0"""
+    r = random.Random(seed)
+    n = len(c)
+    for i in sorted(flats):
+        if i < 1 or i + 1 >= n:
+            continue
+        p = c[i - 1][2]
+        c[i][1:] = [p, p, p, p, 0.0]
+        o = max(21.0, p + r.choice([-3, -2, -1, 1, 2, 3]))
+        nx = c[i + 1]
+        nx[1] = o
+        nx[3] = max(nx[3], o)
+        nx[4] = min(nx[4], o)
+    for i in zerovol:
+        if 0 <= i < n:
+            c[i][5] = 0.0
 
 
 def config_of(item):
